@@ -48,7 +48,11 @@ PROGRAMS = {
     'solo': dict(routines=[dict(seed=1, steps=['log', 'send', 'log', 'send'])], sym=9),
     'tempo-change': dict(routines=[dict(seed=1, steps=['log', 'tempo', 'send', 'log', 'send'])], sym=9,
                          clocks=['tempo']),
-    'etempo': dict(routines=[dict(seed=1, steps=['log', 'etempo', 'send', 'log'])], sym=9, clocks=['tempo']),
+    # a tempo / beats change while another routine is waiting on the same clock
+    'tempo-other': dict(routines=[dict(seed=1, steps=['log', 'tempo', 'log']),
+                                  dict(seed=2, steps=['log', 'send', 'log'])], clocks=['tempo']),
+    'beats-other': dict(routines=[dict(seed=1, steps=['log', 'beats', 'log']),
+                                  dict(seed=2, steps=['log', 'send', 'log'])], clocks=['tempo']),
     'beats-rebase': dict(routines=[dict(seed=1, steps=['log', 'beats', 'send', 'log', 'send'])], sym=9,
                          clocks=['tempo']),
     # discrete features (one symbolic delta per routine, the rest concrete)
@@ -63,6 +67,10 @@ PROGRAMS = {
     'reseed': dict(routines=[dict(seed=9, steps=['rand', 'seed', 'rand']), dict(seed=9, steps=['rand', 'rand'])]),
 }
 THOROUGH_PROGRAMS = {
+    'tempo-other-sym': dict(routines=[dict(seed=1, steps=['log', 'tempo', 'log']),
+                                      dict(seed=2, steps=['log', 'send', 'log'])], sym=2, clocks=['tempo']),
+    'beats-other-sym': dict(routines=[dict(seed=1, steps=['log', 'beats', 'log']),
+                                      dict(seed=2, steps=['log', 'send', 'log'])], sym=2, clocks=['tempo']),
     'three': dict(routines=[dict(seed=1, steps=['send', 'log']), dict(seed=2, steps=['log', 'log']),
                             dict(seed=3, steps=['rand', 'send'])]),
     'two-senders-3': dict(routines=[dict(seed=3, steps=['log', 'send', 'log']),
@@ -139,7 +147,7 @@ class Prog:
                     elif op == 'tempo':
                         clock.tempo = T2
                     elif op == 'etempo':
-                        clock.etempo = T2
+                        clock.etempo(T2)
                     elif op == 'beats':
                         # first re-base towards the past (tasks are postponed), later ones towards the future
                         clock.beats = clock.beats - 1 if 'beats' not in rspec['steps'][:k] else clock.beats + 0.5
@@ -632,7 +640,7 @@ def main(tier, seed):
                   'tempo change to 0.5', 'deltas_latency_s': '[0, 100] symbolic reals',
                   'random_arguments': 'rrand / rand2 bounds symbolic in [-50, 50]', 'seeds': '0..9, 1234',
                   'rt_jitter': 'arbitrary wake-up latency (horizon 1e6 s, <= 40 clock-loop events) for ' + ('every program' if tier != 'quick' else 'the all-symbolic programs; zero latency for the discrete-feature programs'),
-                  'outside': 'several clocks in one program (cross-clock order is timing dependent in RT), AppClock, '
+                  'outside': 'TempoClock.etempo (defined on physical time, hence jitter dependent in RT by definition), several clocks in one program (cross-clock order is timing dependent in RT), AppClock, '
                              'latency None (stamped "immediately" in RT by design), float rounding of time '
                              'arithmetic (times are exact reals; bundle times compared up to one timetag unit), '
                              'programs not in the list'}
